@@ -1,4 +1,5 @@
 import SignalModel.Alloc
+import SignalGen.Attr
 /-!
 # Vocabulary of the definitions regenerated from the Go sources (`SignalGen/Generated.lean`)
 
@@ -26,4 +27,29 @@ def shr (a s : Int) : Int := a / 2 ^ s.toNat
 /-- Go's `%` (remainder of truncated division) -/
 def goMod (a b : Int) : Int := Int.tmod a b
 
+/-- `append(b.data, v)` while `len < cap`: in place (store at position `len`, the header grows by one sample). A growing
+append is outside the translated fragment (`none`). -/
+def append1 (h : Heap) (b : Buf) (v : Int) : Option (Heap × Buf) :=
+  if b.len < b.cap then some (store h b.blk (b.off + b.len) v, { b with len := b.len + 1 }) else none
+
+/-- the properties say that a call panics, not with which message: results are compared up to the kind of a panic -/
+def Res.eraseKind {α : Type} : Res α → Res α
+  | .panic h _ => .panic h .other
+  | r => r
 end Sig.Gen
+
+namespace Sig
+/-- a Go run-time check: `none` is the panic `p`, raised with the heap as it is -/
+def Res.ofOption {α : Type} (h : Heap) (p : Panic) : Option α → Res α
+  | some v => .ok h v
+  | none => .panic h p
+/-- a step the language leaves implementation-defined (`none`): no prediction.  (The heap handed to the continuation
+is not used by it: pure steps do not change the heap.) -/
+def Res.ofUnspec {α : Type} : Option α → Res α
+  | some v => .ok [] v
+  | none => .unspec
+/-- the properties say that a call panics, not with which message: results are compared up to the kind of a panic -/
+def Res.eraseKind {α : Type} : Res α → Res α
+  | .panic h _ => .panic h .other
+  | r => r
+end Sig
